@@ -28,6 +28,23 @@ var (
 	c17StraceRetRe = regexp.MustCompile(`=\s+(\d+)<([^>]*)>\s*$`)
 )
 
+// c17IsInstanceCanary recognises the canary files at places derived from an
+// instance (see c17ExtraPaths) by their names; root is the tree root
+// <R>/t, the data directories are <R>/scratch/work*/data, the canary in the
+// temporary directory is recognised by its name.  The monitor never opens these
+// names itself (it writes them aside and renames).
+func c17IsInstanceCanary(root, opened string) bool {
+	r := filepath.Dir(root)
+	base := filepath.Base(opened)
+	if filepath.Dir(opened) == filepath.Clean(os.TempDir()) && strings.HasPrefix(base, "TestVerifC17-tmpcanary-") && strings.HasSuffix(base, ".txt") {
+		return true
+	}
+	if !strings.HasPrefix(opened, filepath.Join(r, "scratch", c17WorkDirName)) {
+		return false
+	}
+	return base == "x.txt" || base == c17ConfFileName || base == strconv.Itoa(c17OtherListID)+".txt"
+}
+
 // TestVerifC17Opens runs the same sweep in a child process under strace and
 // checks at system-call level that no tree file outside the patterns of the
 // current section is ever opened.
@@ -36,7 +53,7 @@ func TestVerifC17Opens(t *testing.T) {
 		t.Skip("child of the strace run")
 	}
 	rep := verifkit.New("C17", "opens",
-		"case = one successful open/openat of a file of the canary tree by the process that runs the C17 sweep (quick-size, other seed) under strace -f -y; the log is cut into sections by marker opens, one per pattern list; an open is a violation when the opened file (fd path reported by the kernel) matches no pattern of its section; non-trivial = every such open; distinct by (patterns, file)")
+		"case = one successful open/openat of a file of the canary tree or of a canary file at a place derived from the instance (its data directory, the directory and name of its configuration file, os.TempDir) by the process that runs the C17 sweep (quick-size, other seed) under strace -f -y; the log is cut into sections by marker opens, one per pattern list; an open is a violation when the opened file (fd path reported by the kernel) matches no pattern of its section; non-trivial = every such open; distinct by (patterns, file)")
 	defer func() {
 		if err := rep.Write(); err != nil {
 			t.Fatal(err)
@@ -149,7 +166,7 @@ func TestVerifC17Opens(t *testing.T) {
 			continue
 		}
 		opened := m[2]
-		if !files[opened] {
+		if !files[opened] && !c17IsInstanceCanary(root, opened) {
 			continue
 		}
 		asked := ""
@@ -158,6 +175,9 @@ func TestVerifC17Opens(t *testing.T) {
 		}
 		ok := c17MatchAny(patterns, opened)
 		rep.Eval(true, verifkit.JSON(patterns)+"|"+opened)
+		if !files[opened] {
+			rep.Event("opens_of_instance_derived_canaries")
+		}
 		if ok {
 			rep.Event("opens_of_tree_files_inside_patterns")
 			continue
